@@ -20,6 +20,9 @@
     - [aead_correct K], [aead_wrong_key K], [ct_not_pem K] : AES-GCM opens what
                           it sealed, under no other key, and a wrapped file does
                           not parse as a PEM key.
+    Section 3b covers multi-step use of ONE key-manifest object (GetBPMPubHash on
+    a KM that already holds a digest, was parsed from a signed file, was signed
+    in between ...): theorems over all prior states and all histories.
     Which of the glue conditions fail in the real code is recorded by the
     [_refuted] theorems and the KNOWN_FINDINGS entries of C18. *)
 From CSS Require Import Lib.Base Model.Manifest Proofs.Manifest.
@@ -233,6 +236,84 @@ Theorem C18_binding_same_key_cbnt :
    <-> skipn 4 kd0 = skipn 4 kd).
 Proof. exact binding_same_key_cbnt. Qed.
 Print Assumptions C18_binding_same_key_cbnt.
+
+(** * 3b. Re-keying a key manifest OBJECT (GetBPMPubHash on a reused KM)
+
+    "The key whose hash was placed in the key manifest" is the key of the last
+    successful GetBPMPubHash call, whatever the object held before: a KM built a
+    moment ago, a KM parsed with NewKM from an existing signed file, a KM that
+    already went through GetBPMPubHash for another key, a KM carrying digests of
+    other usages.  [kmstate] is what the object holds (BG 1.0 BPKey / CBnT Hash),
+    [km_place] is GetBPMPubHash as coded (REPLACES the state on success, leaves
+    it alone on an error), [kmstep] adds the operations that do not concern the
+    hash (SignKM, WriteKM + NewKM, VerifyKM, a change of SVN/ID). *)
+
+(** One call on an object in ANY prior state: the binding check then succeeds
+    exactly for the key of that call (BG 1.0: with SHA256, see the refutation
+    below for SHA1). *)
+Theorem C18_rekey_binding :
+  forall H : Z -> bytes -> bytes,
+  (forall alg n x, cbnt_hash_size alg = Some n -> length (H alg x) = n) ->
+  forall st keyok req alg kd0 kd st', (4 <= length kd)%nat ->
+  km_place H st keyok req kd0 = (Ok tt, st') ->
+  req = Some alg ->
+  (match st with KmBG _ _ => alg = AlgSHA256 | KmCBNT _ => True end) ->
+  (H alg (skipn 4 kd0) = H alg (skipn 4 kd) -> skipn 4 kd0 = skipn 4 kd) ->
+  (km_binding_ok H st' AlgRSA kd = true <-> skipn 4 kd0 = skipn 4 kd).
+Proof. exact rekey_binding. Qed.
+Print Assumptions C18_rekey_binding.
+
+(** ANY history of steps on one KM object, from ANY initial state: the binding
+    check follows the key of the LAST successful GetBPMPubHash call. *)
+Theorem C18_rekey_history_binding :
+  forall H : Z -> bytes -> bytes,
+  (forall alg n x, cbnt_hash_size alg = Some n -> length (H alg x) = n) ->
+  forall st0 steps alg kd0 kd, (4 <= length kd)%nat ->
+  last_placed H st0 steps None = Some (alg, kd0) ->
+  (match st0 with KmBG _ _ => alg = AlgSHA256 | KmCBNT _ => True end) ->
+  (H alg (skipn 4 kd0) = H alg (skipn 4 kd) -> skipn 4 kd0 = skipn 4 kd) ->
+  (km_binding_ok H (km_run H st0 steps) AlgRSA kd = true <-> skipn 4 kd0 = skipn 4 kd).
+Proof. exact history_binding. Qed.
+Print Assumptions C18_rekey_history_binding.
+
+(** A failing call (key type not accepted, unknown algorithm name, no such hash)
+    leaves the object as it was; a history without a successful call leaves the
+    object in its initial state. *)
+Theorem C18_rekey_error_keeps_state :
+  forall (H : Z -> bytes -> bytes) st keyok req kd,
+  fst (km_place H st keyok req kd) <> Ok tt -> snd (km_place H st keyok req kd) = st.
+Proof. exact place_error_keeps_state. Qed.
+Print Assumptions C18_rekey_error_keeps_state.
+
+Theorem C18_rekey_history_no_place :
+  forall (H : Z -> bytes -> bytes) st0 steps,
+  last_placed H st0 steps None = None -> km_run H st0 steps = st0.
+Proof. exact history_no_place. Qed.
+Print Assumptions C18_rekey_history_no_place.
+
+(** the hypotheses are satisfiable: a CBnT KM made for one key (with an ACM entry),
+    re-keyed after a failing call and a signing *)
+Example C18_rekey_history_example :
+  let old := [1;0;1;0;7;8;9] in
+  let new := [1;0;1;0;7;8;10] in
+  let st0 := KmCBNT [mk_kmhash 4 AlgSHA256 (repeat 9 32); mk_kmhash UsageBPMSigningPKD AlgSHA256 (toyH AlgSHA256 [7;8;9])] in
+  let steps := [SKeep; SPlace true None new; SPlace true (Some AlgSHA384) new; SKeep; SPlace false (Some AlgSHA256) old; SKeep] in
+  km_binding_ok toyH st0 AlgRSA old = true /\
+  last_placed toyH st0 steps None = Some (AlgSHA384, new) /\
+  km_binding_ok toyH (km_run toyH st0 steps) AlgRSA new = true /\
+  km_binding_ok toyH (km_run toyH st0 steps) AlgRSA old = false.
+Proof. exact history_example. Qed.
+
+(** REFUTED for BG 1.0 with SHA1, which GetBPMPubHash accepts: the binding check
+    fails for the very key that was placed.  [finding C18-binding-failopen] *)
+Theorem C18_rekey_binding_bg_sha1_refuted :
+  exists (H : Z -> bytes -> bytes) (st st' : kmstate) (kd : bytes),
+    (forall alg n x, cbnt_hash_size alg = Some n -> length (H alg x) = n) /\
+    (4 <= length kd)%nat /\
+    km_place H st true (Some AlgSHA1) kd = (Ok tt, st') /\
+    km_binding_ok H st' AlgRSA kd = false.
+Proof. exact rekey_bg_sha1_witness. Qed.
+Print Assumptions C18_rekey_binding_bg_sha1_refuted.
 
 Example C18_binding_example :
   let H := fun (alg : Z) (m : bytes) => repeat (fold_left Z.add m alg) 32 in
